@@ -314,7 +314,7 @@ impl Check for C17 {
     fn cases(&self, tier: Tier) -> u64 {
         match tier {
             Tier::Quick => 130 + 104,
-            Tier::Thorough => 1600,
+            Tier::Thorough => 3200,
         }
     }
     fn gen(&self, seed: u64, i: u64, tier: Tier) -> Value {
